@@ -17,7 +17,7 @@ thread_local! {
     pub static CLONES: RefCell<Vec<(usize, u64, u64)>> = RefCell::new(Vec::new());
 }
 
-pub const NTYPES: usize = 10;
+pub const NTYPES: usize = 11;
 
 fn record(t: usize, serial: u64) -> bool {
     // returns true when this is the first drop of that instance
@@ -340,6 +340,20 @@ impl Clone for ZB {
     }
 }
 
+// ---- 10: TK(u64): the value type tracked by `ChangeTracker` (C18).  `Clone` keeps the value,
+// `PartialEq` compares it, and it has no destructor (so it does not take part in the drop ledger).
+#[derive(Clone, PartialEq, Debug)]
+pub struct TK(pub u64);
+impl Comp for TK {
+    const IDX: usize = 10;
+    fn new(s: u64) -> Self {
+        TK(s)
+    }
+    fn serial(&self) -> u64 {
+        self.0
+    }
+}
+
 /// `(size, align)` of every universe type, as hecs sees it
 pub fn layouts() -> Vec<(usize, usize)> {
     use std::alloc::Layout;
@@ -354,6 +368,7 @@ pub fn layouts() -> Vec<(usize, usize)> {
         (Layout::new::<Z>().size(), Layout::new::<Z>().align()),
         (Layout::new::<ZA>().size(), Layout::new::<ZA>().align()),
         (Layout::new::<ZB>().size(), Layout::new::<ZB>().align()),
+        (Layout::new::<TK>().size(), Layout::new::<TK>().align()),
     ]
 }
 
@@ -372,6 +387,7 @@ macro_rules! with_type {
             7 => { type $T = $crate::comps::Z; $body }
             8 => { type $T = $crate::comps::ZA; $body }
             9 => { type $T = $crate::comps::ZB; $body }
+            10 => { type $T = $crate::comps::TK; $body }
             _ => panic!("harness: bad type index"),
         }
     };
@@ -445,11 +461,14 @@ macro_rules! with_bundle {
             25 => { type $T = (C, E); $body }
             26 => { type $T = (ZB,); $body }
             27 => { type $T = (ZB, B); $body }
+            28 => { type $T = (TK,); $body }
+            29 => { type $T = (A, TK); $body }
+            30 => { type $T = (TK, B, Z); $body }
             _ => panic!("harness: bad bundle menu index"),
         }
     }};
 }
-pub const NBUNDLES: usize = 28;
+pub const NBUNDLES: usize = 31;
 
 /// smaller menu for the removed side of `exchange` (keeps monomorphisation count down)
 #[macro_export]
